@@ -1625,6 +1625,8 @@ def _idx_int(v):
         return v
     if isinstance(v, Fr):
         raise InterpTypeError('slice indices must be integers')
+    if hasattr(v, '__index__') and hasattr(v, 'tags'):
+        v.__index__()                      # a data dependent index: raises DataDependentInt carrying what it depends on
     raise AnalysisError('non concrete slice bound %r' % (v,))
 
 
